@@ -280,12 +280,8 @@ def collapse_error(lines, pos, count):
         if not mat or lines[idx].startswith("do while"):
             return (f"collapse({count}) but level {level + 1} is "
                     f"'{lines[idx]}' (not a perfectly nested DO)")
-        bounds = mat.group(2)
-        for var in loop_vars:
-            if re.search(r"\b" + re.escape(var) + r"\b", bounds):
-                return (f"collapse({count}): bounds '{bounds}' of level "
-                        f"{level + 1} depend on outer variable {var} "
-                        f"(non-rectangular)")
+        # (rectangularity of the collapsed nest is left to the compiler:
+        # the property only names the count of perfectly nested loops)
         loop_vars.append(mat.group(1))
         idx += 1
     # perfect nesting on the way out: find end of innermost loop, then the
@@ -438,9 +434,12 @@ def cls_acc_nested(case):
     """ACCParallelTrans/ACCKernelsTrans accept a range that is already
     inside (or contains) an OpenACC compute region."""
     names = _names(case)
+    regions = sum(1 for st in case.get("steps", [])
+                  if st[0] in ("acc_parallel", "acc_kernels") or
+                  (st[0] == "acc_loop" and st[3].get("enclose")))
     return case.get("family") == "acc" and \
         case.get("bucket", "").startswith("structure:nested OpenACC") and \
-        sum(n in ("acc_parallel", "acc_kernels") for n in names) >= 2
+        regions >= 2
 
 
 CLASSIFIERS = {
